@@ -3,7 +3,7 @@
 #include "harness/C04/prelude.h"
 _Static_assert(StringEscapeMode_STANDARD == ESCM_STANDARD && StringEscapeMode_HEX == ESCM_HEX && StringEscapeMode_CONTROL_ONLY == ESCM_CONTROL_ONLY,
                "spec/C04_escape.h and src/JSON.hh number the escape modes alike");
-size_t g_ek, g_p0, g_p1, g_base; char g_ech;
+size_t g_ek, g_p0, g_p1, g_base; char g_ech; unsigned g_gl, g_cl; char g_g0, g_g1, g_g2, g_g3, g_g4, g_g5, g_c0, g_c1, g_c2, g_c3, g_c4, g_c5;
 
 /* piece 1, CHAR LEMMA (loop-free, 256 x 3 symbolic): the bytes that the loop body of escape_string emits for the byte b in each
  * escape mode (a) are 1..6 bytes, (b) do not start with the closing quote, so the guard of the parser's string loop admits them,
@@ -18,7 +18,7 @@ void h_char_lemma(void) {
   JSON_escape_char(&grp, (char)in_b, (int)in_mode);
   __CPROVER_assert(verif_exc == 0 && grp.size >= 1 && grp.size <= 6, "escape_string emits 1..6 bytes per character");
   __CPROVER_assert(grp.data[0] != '"', "the emitted group does not start with the closing quote");
-  __CPROVER_assert(grp.size == C04_ESC_LEN(in_b, in_mode) && C04_GROUP_AT(&grp, 0, (char)in_b, in_mode), "the emitted group is C04_ESC(b, mode)");
+  __CPROVER_assert(C04_GROUP_IS_(C04_C, (char)in_b, (int)in_mode) && grp.size == g_cl && C04_BYTES_AT_(&grp, 0, C04_C), "the emitted group is C04_ESC(b, mode)");
   if (in_mode == ESCM_STANDARD) {
     __CPROVER_assert(SPEC_RFC_CHAR_GROUP(grp.data, grp.size), "STANDARD mode: the group is one string item of RFC 8259 section 7 (standard JSON)");
     __CPROVER_assert(SPEC_RFC_GROUP_VALUE(grp.data, grp.size) == in_b, "STANDARD mode: by RFC 8259 the group denotes the code point b");
@@ -32,7 +32,15 @@ void h_char_lemma(void) {
   VERIF_REACH();
 }
 
-/* piece 2a: escape_string under its contract (loop contract, string length unbounded) */
+/* piece 2a: the loop body of escape_string under its contract (appends exactly C04_ESC(ch, mode); earlier bytes untouched), then
+ * escape_string under its contract (loop contract, string length unbounded, the body replaced by its contract) */
+void h_escape_char(void) {
+  vstr* ret; char in_b; int in_mode;
+  verif_exc = 0;
+  JSON_escape_char(ret, in_b, in_mode);
+  VERIF_REACH();
+}
+
 void h_escape_string(void) {
   vstr* ret; const vstr* s; int in_mode; size_t in_ek, in_base;
   g_ek = in_ek; g_base = in_base; verif_exc = 0;
@@ -96,7 +104,7 @@ void l_string_arm(void) {
   __CPROVER_assert(ret->size >= 2 && ret->data[0] == '"' && ret->data[ret->size - 1] == '"', "serialize(string) is enclosed in quotes");
   __CPROVER_assert(in_n == 0 ==> ret->size == 2, "serialize(\"\") is two quotes");
   __CPROVER_assert((in_k == 0 && in_n > 0) ==> g_p0 == 1, "the group of s[0] starts right behind the opening quote");
-  __CPROVER_assert(in_k + 1 == in_n ==> g_p1 == ret->size - 1, "the closing quote follows the group of the last character");
+  __CPROVER_assert((in_k < in_n && in_k + 1 == in_n) ==> g_p1 == ret->size - 1, "the closing quote follows the group of the last character");
   StringReader r = {(const uint8_t*)ret->data, ret->size, 0};
   __CPROVER_assert(JSON_parse_dispatch(&r) == 4, "the first character of serialize(string) selects the string branch of parse");
   VERIF_REACH();
